@@ -439,6 +439,14 @@ class Walker:
         if api["symrefs"] != want_sym:
             self.report(f"{site}.get_symrefs", "read", f"state={feats} got={_got(api['symrefs'])}",
                         f"get_symrefs() gives {_ser(api['symrefs'])}, the contract says {_ser(want_sym)}", hist, be, {})
+        for s in api["sub"]:
+            wk, wa = sub_expected(e, obs, s["base"], s["mode"], self.objs.ids)
+            if s["keys"] != wk:
+                self.report(f"{site}.subkeys", "read", sub_case(s, loose, packed, s["keys"]),
+                            f"subkeys({base_str(s)!r}) gives {s['keys']}, the refs under it are {wk}", hist, be, {})
+            if s["asd"] != wa:
+                self.report(f"{site}.as_dict", "read", sub_case(s, loose, packed, s["asd"]),
+                            f"as_dict({base_str(s)!r}) gives {_ser(s['asd'])}, the contract says {_ser(wa)}", hist, be, {})
         if self.kind != "disk":
             return
         try:
@@ -477,6 +485,26 @@ class Walker:
     @property
     def findings(self):
         return list(self.by_sig.values())
+
+
+def base_str(s):
+    raw = "/".join(s["base"])
+    return raw + "/" if s["mode"] == "slash" else (raw[:-1] if s["mode"] == "partial" else raw)
+
+
+def sub_expected(e, obs, base, mode, ids):
+    """Keys under a base (whole path components) and their resolved values, from the state."""
+    if mode == "partial":
+        return [], {}
+    under = [n for n, x in e.items() if x != ABSENT and len(n) > len(base) and n[:len(base)] == tuple(base)]
+    return sorted(n[len(base):] for n in under), {n[len(base):]: obs[n] for n in under if obs.get(n) in ids}
+
+
+def sub_case(s, loose, packed, got):
+    raw = base_str(s)
+    near = [n for n in loose if "/".join(n).startswith(raw.rstrip("/"))]
+    pk = any(packed.get(n, ABSENT) != ABSENT for n in near)
+    return f"base={'/'.join(s['base'])} mode={s['mode']} packed-below={'yes' if pk else 'no'} got={_got(got)}"
 
 
 def git_diffs(objs, view, obs, loose, packed):
